@@ -21,16 +21,26 @@ How the model reads the tables:
   `--list --json`).  `compiledTask` only calls `Value` (no write).
 * `guards`: `IsTaskUpToDate` is skipped under `skipFingerprinting` (`--force`); the prompt
   is skipped when dry; `mkdir` is skipped when dry (`Cfg.fixed.dryMkdir = false`; unguarded in
-  the tree as found); `execext.RunCommand` is unreachable when dry; `statusOnError` is
-  called at two places: when the prompt is declined (under `!e.Dry`, like the prompt itself) and
-  inside the command loop.
+  the tree as found); `execext.RunCommand` is unreachable when dry, but a `task:` command is
+  followed (`runCommand:e.RunTask` has no dry guard) and the callee's preconditions are evaluated
+  (`areTaskPreconditionsMet` unguarded): `Cmd.need` / `Cmd.blocked`, the one way a dry body fails;
+  `statusOnError` is called at two places — when the prompt is declined (under `!e.Dry`, like the
+  prompt itself) and inside the command loop — and, since TS4, reaches `checker.OnError` only under
+  `!(e.Dry)` (`Cfg.fixed.dryOnError = false`; unguarded in the tree as found).
 * `checksumIsUpToDate`: read old → compute new → write under `!checker.dry && oldHash !=
   newHash` → generates check → `return oldHash == newHash` (`sumCheck`).
-* `timestampIsUpToDate`: Globs sources, Globs generates, Stat marker, append marker | create
-  under `!checker.dry`, `time.Now`, max, newer?, `Chtimes` under `!checker.dry` (`tsCheck`).
+* `timestampIsUpToDate` (patched by TS1/TS2): Globs sources, Globs generates, `generatesExist`
+  (true; cleared when a non-negated entry's `glob` fails or matches nothing — `gensOk`), Stat
+  marker, append marker | create under `!checker.dry`, `time.Now`, max, newer?, `upToDate :=
+  !shouldUpdate && generatesExist`, `Chtimes` under `!checker.dry && !upToDate`, `return upToDate`
+  (`tsCheck`).  The `def …` entries are the definitions of the verdict variables with their FULL
+  guard chain (err conditions included).
 * `checksumSum`: per source, `filepath.Rel(t.Dir, f)` → `filepath.ToSlash` → hash, then the
   content (`nameOf`, `stream`); `fingerOrder_checksumName_ok` pins the arguments.
-* `checksumOnError` removes the file when the task has sources; `timestampOnError` does nothing.
+* `checksumOnError` removes the file when the task has sources; so does `timestampOnError`
+  (patched by TS3) with the marker (`onError`); neither consults `checker.dry`, but in dry mode
+  `statusOnError` is unreachable in the model's fragment (prompt guard `!e.Dry`; `runCommand` has
+  no failing `execext.RunCommand` when dry).
 * keys: checksum `normalizeFilename(t.Name())`, timestamp `normalizeFilename(t.Task)`,
   regexp `[^A-z0-9]` → `-`.
 -/
@@ -58,7 +68,8 @@ theorem dryWiring_fields_ok : DryWiring.fields = [("NewChecksumChecker.dry", "dr
 platform and call-count checks, deferred commands — belong to other domains and may change) -/
 def fingerGuardKeys : List String :=
   ["Executor.RunTask:fingerprint.IsTaskUpToDate", "Executor.RunTask:e.Logger.Prompt", "Executor.RunTask:e.mkdir",
-   "Executor.RunTask:e.runCommand", "Executor.RunTask:e.statusOnError", "Executor.runCommand:execext.RunCommand",
+   "Executor.RunTask:e.runCommand", "Executor.RunTask:e.statusOnError", "Executor.RunTask:e.areTaskPreconditionsMet",
+   "Executor.runCommand:e.RunTask", "Executor.runCommand:execext.RunCommand",
    "Executor.Status:fingerprint.IsTaskUpToDate", "Executor.statusOnError:checker.OnError",
    "Executor.ToEditorOutput:fingerprint.IsTaskUpToDate", "Executor.ListTasks:e.ToEditorOutput",
    "Executor.Run:summary.PrintTask", "Executor.Run:e.splitRegularAndWatchCalls"]
@@ -66,15 +77,17 @@ def fingerGuardKeys : List String :=
 set_option maxRecDepth 4096 in
 theorem dryWiring_guards_ok :
     DryWiring.guards.filter (fun g => fingerGuardKeys.contains g.1) =
-      [("Executor.RunTask:fingerprint.IsTaskUpToDate", "!skipFingerprinting"),
+      [("Executor.RunTask:e.areTaskPreconditionsMet", ""),
+       ("Executor.RunTask:fingerprint.IsTaskUpToDate", "!skipFingerprinting"),
        ("Executor.RunTask:e.Logger.Prompt", "range t.Prompt && p != \"\" && !e.Dry"),
        ("Executor.RunTask:e.statusOnError", "range t.Prompt && p != \"\" && !e.Dry"),
        ("Executor.RunTask:e.mkdir", "!e.Dry"),
        ("Executor.RunTask:e.runCommand", "range t.Cmds && !(t.Cmds[i].Defer)"),
        ("Executor.RunTask:e.statusOnError", "range t.Cmds && !(t.Cmds[i].Defer)"),
+       ("Executor.runCommand:e.RunTask", "case cmd.Task != \"\""),
        ("Executor.runCommand:execext.RunCommand", "case cmd.Cmd != \"\" && !(!shouldRunOnCurrentPlatform(cmd.Platforms)) && !(e.Dry)"),
        ("Executor.Status:fingerprint.IsTaskUpToDate", "range calls"),
-       ("Executor.statusOnError:checker.OnError", ""),
+       ("Executor.statusOnError:checker.OnError", "!(e.Dry)"),
        ("Executor.ToEditorOutput:fingerprint.IsTaskUpToDate", "!(noStatus)"),
        ("Executor.ListTasks:e.ToEditorOutput", "o.FormatTaskListAsJSON"),
        ("Executor.Run:summary.PrintTask", "e.Summary && range calls"),
@@ -125,6 +138,9 @@ theorem fingerOrder_checksumPath_ok : FingerOrder.checksumPath = [("filepath.Joi
 theorem fingerOrder_timestampIsUpToDate_ok : FingerOrder.timestampIsUpToDate = [("return false, nil", "len(t.Sources) == 0"),
   ("Globs", "!(len(t.Sources) == 0)"),
   ("Globs", "!(len(t.Sources) == 0)"),
+  ("def generatesExist := true", "!(len(t.Sources) == 0) && !(err != nil) && !(err != nil)"),
+  ("glob", "!(len(t.Sources) == 0) && range t.Generates && !(g.Negate)"),
+  ("def generatesExist = false", "!(len(t.Sources) == 0) && !(err != nil) && !(err != nil) && range t.Generates && !(g.Negate) && err != nil || len(files) == 0"),
   ("checker.timestampFilePath", "!(len(t.Sources) == 0)"),
   ("os.Stat", "!(len(t.Sources) == 0)"),
   ("append", "!(len(t.Sources) == 0)"),
@@ -134,10 +150,15 @@ theorem fingerOrder_timestampIsUpToDate_ok : FingerOrder.timestampIsUpToDate = [
   ("time.Now", "!(len(t.Sources) == 0)"),
   ("getMaxTime", "!(len(t.Sources) == 0)"),
   ("anyFileNewerThan", "!(len(t.Sources) == 0)"),
-  ("os.Chtimes", "!(len(t.Sources) == 0) && !checker.dry"),
-  ("return !shouldUpdate, nil", "!(len(t.Sources) == 0)")] := by rfl
+  ("def shouldUpdate, err := anyFileNewerThan(sources, generateMaxTime)", "!(len(t.Sources) == 0) && !(err != nil) && !(err != nil) && !(err != nil || generateMaxTime.IsZero())"),
+  ("def upToDate := !shouldUpdate && generatesExist", "!(len(t.Sources) == 0) && !(err != nil) && !(err != nil) && !(err != nil || generateMaxTime.IsZero()) && !(err != nil)"),
+  ("os.Chtimes", "!(len(t.Sources) == 0) && !checker.dry && !upToDate"),
+  ("return upToDate, nil", "!(len(t.Sources) == 0)")] := by rfl
 
-theorem fingerOrder_timestampOnError_ok : FingerOrder.timestampOnError = [("return nil", "")] := by rfl
+theorem fingerOrder_timestampOnError_ok : FingerOrder.timestampOnError = [("return nil", "len(t.Sources) == 0"),
+  ("os.Remove", "!(len(t.Sources) == 0)"),
+  ("checker.timestampFilePath", "!(len(t.Sources) == 0)"),
+  ("return nil", "!(len(t.Sources) == 0)")] := by rfl
 
 theorem fingerOrder_timestampPath_ok : FingerOrder.timestampPath = [("filepath.Join", ""),
   ("normalizeFilename", ""),
